@@ -291,7 +291,9 @@ theorem hist_bulkUpdate_ok {cfg : Cfg} {c c' : Coll T} {u : UMap T}
       · cases h
       · split at h
         · cases h
-        · cases h; rfl
+        · split at h
+          · cases h
+          · cases h; rfl
 
 /-- two lists of pairs with the same projections are equal. -/
 theorem hist_pairs_ext {α β : Type} : ∀ (a b : List (α × β)),
